@@ -21,3 +21,23 @@ __CPROVER_ensures((g_bool_class >= 0 && __CPROVER_return_value == ECONF_SUCCESS)
 __CPROVER_ensures(__CPROVER_return_value >= ECONF_SUCCESS &&
                   __CPROVER_return_value <= ECONF_VALUE_CONVERSION_ERROR)
 ;
+
+/* C08 "every accepted boolean spelling ... storing the value with the typed
+ * setter and fetching it with the matching getter returns exactly the stored
+ * value": the boolean setter canonicalises the six words (any letter case)
+ * to true/false.  g_bool_class as above, for the text handed to the setter.
+ * Other texts (incl. the empty one) may be refused or accepted: unspecified. */
+extern const char *g_set_value;   /* entry[num].value before the call */
+econf_err setBoolValueNum(econf_file *kf, size_t num, const void *v)
+__CPROVER_requires(kf != NULL && num < kf->alloc_length)
+__CPROVER_assigns(kf->file_entry[num].value)
+__CPROVER_frees(kf->file_entry[num].value)
+__CPROVER_ensures((g_bool_class == 1 || g_bool_class == 0) ==> __CPROVER_return_value == ECONF_SUCCESS)
+__CPROVER_ensures(g_bool_class == 1 ==> (kf->file_entry[num].value != NULL &&
+   kf->file_entry[num].value[0] == 't' && kf->file_entry[num].value[1] == 'r' && kf->file_entry[num].value[2] == 'u' &&
+   kf->file_entry[num].value[3] == 'e' && kf->file_entry[num].value[4] == 0))
+__CPROVER_ensures(g_bool_class == 0 ==> (kf->file_entry[num].value != NULL &&
+   kf->file_entry[num].value[0] == 'f' && kf->file_entry[num].value[1] == 'a' && kf->file_entry[num].value[2] == 'l' &&
+   kf->file_entry[num].value[3] == 's' && kf->file_entry[num].value[4] == 'e' && kf->file_entry[num].value[5] == 0))
+__CPROVER_ensures(__CPROVER_return_value != ECONF_SUCCESS ==> kf->file_entry[num].value == g_set_value)
+;
